@@ -179,8 +179,56 @@ class Renderer:
                     raise ExtractError('%s: anchor %r matches %d times' % (label, anchor, len(hits)))
                 p = hits[0] if k == 'before' else hits[0] + len(anchor)
                 edits.append(Edit(p, p, '\n' + content + '\n', org))
+            elif k == 'closure':
+                # R8: closure literal right after <anchor>: `|p..| body` -> `|typed| -> (ret) <content: ensures..> { body }` (body text kept)
+                anchor, rest = parse_quoted(arg)
+                mm = re.fullmatch(r'\s*(?:#(\d+))?\s*(?:bind\s+(\w+)\s+)?params\s+"([^"]*)"\s+ret\s+"([^"]*)"\s*', rest)
+                if not mm:
+                    raise ExtractError('bad closure directive: %r' % arg)
+                hits = s.find_anchor(anchor, lo, hi, int(mm.group(1)) if mm.group(1) else None)
+                if len(hits) != 1:
+                    raise ExtractError('%s: closure anchor %r matches %d times' % (label, anchor, len(hits)))
+                cpos = hits[0] + len(anchor)
+                mc = re.match(r'\s*(move\s+)?\|', s.m[cpos:])
+                if not mc:
+                    raise ExtractError('%s: no closure literal after %r' % (label, anchor))
+                bar1 = cpos + mc.end() - 1
+                bar2 = s.m.find('|', bar1 + 1)
+                if bar2 < 0 or bar2 >= hi:
+                    raise ExtractError('%s: unterminated closure parameter list after %r' % (label, anchor))
+                bstart = bar2 + 1
+                # body ends at the first `,` or closing bracket at depth 0
+                d0 = 0
+                bend = -1
+                for j in range(bstart, hi):
+                    ch = s.m[j]
+                    if ch in '([{':
+                        d0 += 1
+                    elif ch in ')]}':
+                        if d0 == 0:
+                            bend = j
+                            break
+                        d0 -= 1
+                    elif ch == ',' and d0 == 0:
+                        bend = j
+                        break
+                if bend < 0:
+                    raise ExtractError('%s: cannot delimit closure body after %r' % (label, anchor))
+                body = s.text[bstart:bend].strip()
+                typed = '|%s| -> (%s)\n%s\n{ %s }' % (mm.group(3), mm.group(4), content, body)
+                if mm.group(2):
+                    ls = s.text.rfind('\n', lo, hits[0]) + 1
+                    if ls < lo:
+                        ls = lo
+                    edits.append(Edit(ls, ls, 'let %s = %s;\n' % (mm.group(2), typed), org))
+                    edits.append(Edit(cpos, bend, mm.group(2), ('subst', label, sd['line'])))
+                else:
+                    edits.append(Edit(cpos, bend, typed, org))
+                self.rule('R8', '%s: closure after %r typed (%s) -> (%s); body kept: %s' % (label, anchor, mm.group(3), mm.group(4), ' '.join(body.split())[:80]))
             elif k == 'start':
                 edits.append(Edit(lo, lo, '\n' + content + '\n', org))
+            elif k == 'finish':
+                edits.append(Edit(hi, hi, '\n' + content + '\n', org, prio=5))
             elif k == 'subst':
                 old, rest = parse_quoted(arg)
                 rest = rest.strip()
@@ -264,7 +312,7 @@ class Renderer:
             'kind': 'fn', 'file': rel, 'path': label, 'impl': f.get('impl', ''), 'signature': real_sig,
             'lines': [s.line_of(f['fn_kw']), s.line_of(f['body_close'])],
             'sha256': hashlib.sha256((real_sig + body_txt).encode()).hexdigest()[:16],
-            'splices': len([x for x in subs if x['kind'] in ('loop', 'before', 'after', 'contract', 'start')]),
+            'splices': len([x for x in subs if x['kind'] in ('loop', 'before', 'after', 'contract', 'start', 'closure', 'finish')]),
         })
         return pieces
 
@@ -355,8 +403,10 @@ class Renderer:
             edits.append(Edit(lo + mm.start(), e, '', ('drop', label, 0)))
         for mm in re.finditer(r'(?m)^[ \t]*///.*\n', s.text[lo:hi]):
             edits.append(Edit(lo + mm.start(), lo + mm.end(), '', ('drop', label, 0)))
-        for mm in re.finditer(r'\bpub(\([^)]*\))?\s+', s.m[lo:hi]):
-            edits.append(Edit(lo + mm.start(), lo + mm.end(), '', ('drop', label, 0)))
+        keeppub = any(sd['kind'] == 'keeppub' for sd in d['subs'])
+        if not keeppub:
+            for mm in re.finditer(r'\bpub(\([^)]*\))?\s+', s.m[lo:hi]):
+                edits.append(Edit(lo + mm.start(), lo + mm.end(), '', ('drop', label, 0)))
         if keep is not None:
             o = s.m.find('{', lo, hi)
             c = match_close(s.m, o)
@@ -394,7 +444,8 @@ class Renderer:
             pieces.append(Piece(attrs + '\n', ('template', d['line'])))
         pieces += apply_edits(s, lo, hi, ded, None)
         pieces.append(Piece('\n', ('template', 0)))
-        self.rule('R3', '%s: visibility removed' % label)
+        if not keeppub:
+            self.rule('R3', '%s: visibility removed' % label)
         self.meta['items'].append({'kind': kind, 'file': rel, 'path': name, 'lines': [s.line_of(lo), s.line_of(hi - 1)],
                                    'sha256': hashlib.sha256(s.text[lo:hi].encode()).hexdigest()[:16]})
         return pieces
